@@ -7,6 +7,7 @@ pub mod fw;
 pub mod gen;
 pub mod obs;
 pub mod refint;
+pub mod seqmodel;
 pub mod util;
 
 use fw::*;
